@@ -480,7 +480,7 @@ def gen_e2e_tree(rng, max_depth=5, max_leaves=10):
     """valid taxonomy for an end-to-end run: depth 1..max_depth, chains,
     single-node levels, bounded number of leaves"""
     r = rng.random()
-    if r < 0.12:
+    if r < 0.06:
         # no choice anywhere: a pure chain
         depth = rng.randint(1, max_depth)
         levels = rng.sample(['class', 'subclass', 'supertype', 'cluster',
